@@ -113,10 +113,13 @@ def prelude(context, twin, case):
         _PRELUDE = _prelude_calls()
     rnd = random.Random(zlib.crc32(repr((case['o'], case['p'], case['r'])).encode()))
     k = rnd.choice((0, 0, 0, 1, 2, 3))
+    import warnings
     for name, fn in rnd.sample(_PRELUDE, k):
         PRELUDE_COUNTS[name] = PRELUDE_COUNTS.get(name, 0) + 1
         try:
-            fn(context, twin)
+            with warnings.catch_warnings():
+                warnings.simplefilter('ignore')   # e.g. the graphviz package about labels ending in a backslash
+                fn(context, twin)
         except Exception:  # noqa: BLE001 - history only
             PRELUDE_COUNTS['raised'] = PRELUDE_COUNTS.get('raised', 0) + 1
 
